@@ -30,7 +30,9 @@ TYPES = ["a", "b", "div", "p", "span", "h1", "li"]
 IDS = ["i", "id1", "x"]
 CLASSES = ["c", "foo", "k", "a-b", "x1"]
 ATTRS = ["t", "href", "lang", "data-x"]
-ATTR_OPS = ["", "=v", '="v w"', "~=v", "|=en", "^=v", "$=v", "*=v", "='q'"]
+ATTR_OPS = ["", "=v", '="v w"', "~=v", "|=en", "^=v", "$=v", "*=v", "='q'",
+            # strings whose content looks like selector syntax: counted as nothing
+            '="["', '="]"', '="#a"', '=".b"', '=":not(x)"', '="a > b"', "='*'", '="[x=y]"', '~="#i.c"', '="::after"', '=","']
 PCLASS = ["hover", "first-child", "link", "last-child", "empty", "nth-child(2n+1)", "nth-of-type(odd)", "lang(en)", "nth-last-child(3)"]
 PELEM = ["::after", "::before", ":first-line", ":first-letter", "::first-line", ":after", "::slotted(x)", "::part(x1)", "::foo(1)", "::nth-fragment(2n+1)"]
 COMB = [" ", ">", "+", "~"]
